@@ -89,6 +89,14 @@ pub fn stream_menu() -> Vec<SMenu> {
             if st.len() > want { n -= 1 } else { n += 1 }
         }
     }
+    // streams that are larger than their plaintext: noise as fixed-Huffman literals, many small stored blocks
+    {
+        let noise = text_family(4, 2000);
+        let toks: Vec<Tok> = noise.iter().map(|&b| Tok::Lit(b)).collect();
+        v.push(SMenu { name: "noise-as-fixed-literals", stream: ser1(Block::Fixed { toks }, 0), plain: noise.clone() });
+        let blocks: Vec<Block> = noise.chunks(50).map(|c| Block::Stored { data: c.to_vec(), pad: 0 }).collect();
+        v.push(SMenu { name: "forty-stored-blocks", stream: serialise(&Stream { blocks, final_pad: 0 }), plain: noise });
+    }
     // 8.. real compressors on a 2 KiB text
     let t2 = text_family(1, 2048);
     for (name, c) in [
@@ -284,6 +292,19 @@ pub fn wrapper_menu(full: bool) -> Vec<Wrapper> {
                 }),
             });
         }
+    }
+    // a bare run of IDAT chunks without PNG signature / IHDR (with empty prefix junk it starts at offset 0)
+    for (d, sp) in [("one chunk", vec![]), ("two chunks", vec![500usize])] {
+        let sp2 = sp.clone();
+        v.push(Wrapper {
+            kind: WKind::Png,
+            descr: format!("bare IDAT run, {}", d),
+            supported: true,
+            build: Arc::new(move |s| {
+                let z = zlib_wrap([0x78, 0x9c], &s.stream, &s.plain);
+                idat_chunks(&z, &sp2)
+            }),
+        });
     }
     // split inside the Adler-32 (relative to the end)
     for back in [1usize, 2, 4, 5] {
